@@ -90,6 +90,19 @@ class Ob:
                 out[k] = z3.is_true(val)
         return out
 
+    def eval_val(self, m, v, depth=0):
+        if isinstance(v, SInt):
+            return m.eval(v.t, model_completion=True).as_signed_long()
+        if isinstance(v, SBool):
+            return z3.is_true(m.eval(v.t, model_completion=True))
+        if isinstance(v, (tuple, list)) and depth < 4:
+            return type(v)(self.eval_val(m, x, depth + 1) for x in v)
+        if isinstance(v, (int, str, bool, float, type(None))):
+            return v
+        for key in ('_mpf_', '_mpc_', '_mpi_'):
+            pass
+        return repr(v)[:80]
+
     def prove(self, outs, good, good_raise=None):
         """outs: outcomes of run().  good(value, state) -> z3 Bool that must hold on every NORMAL
         outcome; good_raise(exc, state) -> z3 Bool / bool for RAISE outcomes (default: a raise is a
@@ -113,7 +126,7 @@ class Ob:
             r, m = self.check(st.pc, z3.Not(g))
             if r == 'sat':
                 res.update(status='violated', model=self.model_values(m),
-                           detail=('raised %r' % (val,)) if kind == RAISE else '')
+                           detail=('raised %r' % (val,)) if kind == RAISE else 'symbolic result under model: %s' % (self.eval_val(m, val),))
                 return res
             if r != 'unsat':
                 res.update(status='inconclusive', detail='solver %s on final query' % r)
